@@ -60,18 +60,24 @@ def run(ctx, replay):
     vcore.validate_all(ctx, "IDDictTrace", "IDDictTrace.cfg", tr, describe=describe, dfs=False)
 
     def second_id(lines):
-        # one caller gets another id for a name that already has one
-        seen = {}
+        # one caller gets another id for a name that was already returned with an id
+        seen = set()
+        call = {}
         for i, ln in enumerate(lines):
-            if '"ev":"Ret"' in ln and '"found":true' in ln:
+            if '"ev":"Reset"' in ln:
+                seen, call = set(), {}
+            elif '"ev":"Call"' in ln:
                 d = json.loads(ln)
-                d["id"] = d["id"] + 17
-                out = list(lines)
-                out[i + 0] = json.dumps(d, separators=(",", ":")) + "\n"
-                # only corrupt a return of a name returned before: find the 2nd return overall
-                if seen.get("n", 0) >= 3:
+                call[d["t"]] = (d["kind"], d["scope"], d["name"])
+            elif '"ev":"Ret"' in ln and '"found":true' in ln:
+                d = json.loads(ln)
+                key = call.get(d["t"])
+                if key in seen:
+                    d["id"] = d["id"] + 17
+                    out = list(lines)
+                    out[i] = json.dumps(d, separators=(",", ":")) + "\n"
                     return out
-                seen["n"] = seen.get("n", 0) + 1
+                seen.add(key)
         return None
 
     def shared_id(lines):
